@@ -85,6 +85,7 @@ INVARIANTS = {'ContactHandler': [
     ('passive_init_order', 'implies(self._as_passive and self._sessinit_peer is None, self._sessinit_this is None)'),
     ('peer_init_after_ours', 'implies(self._sessinit_peer is not None, self._in_sess)'),
     ('tls_after_contact', 'implies(not self._in_conn, not secured(self))'),
+    ('tls_implies_open', 'implies(secured(self), not closed(self))'),
     ('flags_nonneg', 'implies(self._conhead_this is not None, self._conhead_this.flags >= 0) and '
                      'implies(self._conhead_peer is not None, self._conhead_peer.flags >= 0)'),
     # --- I6 coupling with the output automaton ---------------------------------
